@@ -206,20 +206,24 @@ var _ rpc.Resources
 //@       Subscription.eventQueue, Subscription.throttle, Subscription.reaccessThrottle, Subscription.resourceSub, Subscription.refs, elems(c.subs), pkgstate(rescache), cachecontainers()
 //@   safety[C15]
 
-// UnsubscribeByRID succeeds exactly when the connection is live, the rid is subscribed and its
-// direct count covers the request; then the count drops by exactly that number, otherwise
-// nothing changes.
+// UnsubscribeByRID succeeds exactly when the connection is live, the rid is subscribed and the
+// number of direct subscriptions the client has been told about (successful subscribe and
+// resource responses, minus earlier unsubscribes) covers the request; then that number and the
+// direct count both drop by exactly the requested count - the subscriptions counted for requests
+// still waiting for their answer are never touched - otherwise nothing changes.
 //@ func (*wsConn).UnsubscribeByRID
 //@   requires c != nil && count > 0 && (forall r string :: has(c.subs, r) ==> c.subs[r] != nil) && predCountsOK()
-//@   ensures[C08] result == (!old(c.disposing) && old(has(c.subs, rid)) && old(c.subs[rid].direct) >= count)
-//@   ensures[C08] result ==> old(c.subs[rid]).direct == old(c.subs[rid].direct) - count
-//@   ensures[C08] !result ==> (forall x *Subscription :: x.direct == old(x.direct))
+//@   assumes forall x *Subscription :: 0 <= x.confirmed && x.confirmed <= x.direct
+//@   ensures[C08] result == (!old(c.disposing) && old(has(c.subs, rid)) && old(c.subs[rid].confirmed) >= count)
+//@   ensures[C07,C08] result ==> old(c.subs[rid]).direct == old(c.subs[rid].direct) - count && old(c.subs[rid]).confirmed == old(c.subs[rid].confirmed) - count
+//@   ensures[C08] !result ==> (forall x *Subscription :: x.direct == old(x.direct) && x.confirmed == old(x.confirmed))
 //@   safety[C15]
 
 //@ func (*wsConn).UnsubscribeResource
 //@   requires c != nil && c.serv != nil && count > 0 && (forall r string :: has(c.subs, r) ==> c.subs[r] != nil) && predCountsOK()
 //@   resolves[C07] cb exactly-once
-//@   callback cb requires[C08] ok == (!old(c.disposing) && old(has(c.subs, rid)) && old(c.subs[rid].direct) >= count)
+//@   assumes forall x *Subscription :: 0 <= x.confirmed && x.confirmed <= x.direct
+//@   callback cb requires[C08] ok == (!old(c.disposing) && old(has(c.subs, rid)) && old(c.subs[rid].confirmed) >= count)
 //@   safety[C15]
 
 // --- request handlers: exactly one response (C07), access gating (C04, C05), accounting (C08) ---
@@ -1282,6 +1286,9 @@ var _ rpc.Resources
 // released: a client applies what it receives in order)
 //@   assert[C01,C03] sub.ReleaseRPCResources#1: resolved(cb) == 1
 //@   ensures[C08] old(sub.Error()) != nil && !old(c.disposing) && old(predCounts(sub)) != 0 ==> sub.direct == ite(old(sub.direct) >= 1, old(sub.direct) - 1, 0)
+// (a successful subscribe response confirms one direct subscription; a failing one confirms none)
+//@   assert[C08] sub.GetRPCResources#1: sub.confirmed == old(sub.confirmed) + 1
+//@   ensures[C08] old(sub.Error()) != nil ==> sub.confirmed == old(sub.confirmed)
 //@   safety[C15]
 
 //@ func (*wsConn).handleResourceResult
@@ -1301,6 +1308,7 @@ var _ rpc.Resources
 //@ closure (*wsConn).handleResourceResult#2
 //@   requires[C04] predConnOK(c) && predSubOf(sub, c) && err == nil
 //@   resolves[C07] cb exactly-once
+//@   assert[C08] sub.GetRPCResources#1: sub.confirmed == old(sub.confirmed) + 1
 // (the response that hands the resources over is written before the events held for them are
 // released: a client applies what it receives in order)
 //@   assert[C01,C03] sub.ReleaseRPCResources#1: resolved(cb) == 1
@@ -1448,9 +1456,11 @@ var _ rpc.Resources
 //@   requires s != nil && s.c != nil && predConnOK(s.c.(*wsConn))
 //@   assumes predCountsOK()
 //@   ensures[C06,C08] old(s.direct) > 0 && !old(s.c.(*wsConn).disposing) ==> s.direct == 0
+//@   ensures[C06,C08] old(s.direct) > 0 ==> s.confirmed == 0
+//@   ensures[C08] old(s.direct) <= 0 ==> s.confirmed == old(s.confirmed)
 //@   ensures[C06,C08] old(s.direct) > 0 && old(s.c.(*wsConn).ws) != nil ==> wsframes == old(wsframes) + 1
 //@   ensures[C06,C08] old(s.direct) <= 0 ==> wsframes == old(wsframes) && (forall x *Subscription :: x.direct == old(x.direct))
-//@   assigns wsframes, Subscription.direct, Subscription.state, Subscription.indirectsent, Subscription.indirect, Subscription.queueFlag, Subscription.readyCallbacks,
+//@   assigns wsframes, s.confirmed, Subscription.direct, Subscription.state, Subscription.indirectsent, Subscription.indirect, Subscription.queueFlag, Subscription.readyCallbacks,
 //@       Subscription.eventQueue, Subscription.throttle, Subscription.reaccessThrottle, Subscription.resourceSub, Subscription.refs, elems(s.c.(*wsConn).subs), pkgstate(rescache), cachecontainers()
 //@   assert[C10] rpc.NewEvent#1: arg0 == s.rid && arg1 == "unsubscribe"
 //@   safety[C15]
@@ -1462,7 +1472,7 @@ var _ rpc.Resources
 //@   ensures[C06] !old(a.Error == nil && a.Get) && old(s.direct) > 0 && old(s.c.(*wsConn).ws) != nil ==> wsframes == old(wsframes) + 1
 //@   ensures[C06] old(a.Error == nil && a.Get) ==> wsframes == old(wsframes) && (forall x *Subscription :: x.direct == old(x.direct))
 //@   ensures[C06] old(s.direct) <= 0 ==> wsframes == old(wsframes) && (forall x *Subscription :: x.direct == old(x.direct))
-//@   assigns wsframes, Subscription.direct, Subscription.state, Subscription.indirectsent, Subscription.indirect, Subscription.queueFlag, Subscription.readyCallbacks,
+//@   assigns wsframes, s.confirmed, Subscription.direct, Subscription.state, Subscription.indirectsent, Subscription.indirect, Subscription.queueFlag, Subscription.readyCallbacks,
 //@       Subscription.eventQueue, Subscription.throttle, Subscription.reaccessThrottle, Subscription.resourceSub, Subscription.refs, elems(s.c.(*wsConn).subs), pkgstate(rescache), cachecontainers()
 //@   safety[C15]
 
